@@ -233,7 +233,7 @@ func (m *ServerConfig) GetTlsConfig() (conf *tls.Config, err error) {
 	log.Debug("ServerConfig.GetTlsConfig()")
 	conf, err = m.Config.GetTlsConfig()
 
-	if err != nil {
+	if err == nil {
 		if m.RequireClientCert {
 			conf.ClientAuth = tls.RequireAndVerifyClientCert
 		}
